@@ -16,11 +16,16 @@ def supE : Expr → Bool
   | .eq a b | .ne a b | .gt a b | .lt a b | .ge a b | .le a b => supE a && supE b
   | .ite c t f => supE c && supE t && supE f
   | .call _ args => supArgs args
+  | .ffi _ _ _ args => supArgs args
+  | .struct _ fields _ => supFields fields
   | .block ss e => supSs ss && supE e
   | _ => false
 def supArgs : List Expr → Bool
   | [] => true
   | e :: es => supE e && supArgs es
+def supFields : List (Nat × Expr) → Bool
+  | [] => true
+  | (_, e) :: rest => supE e && supFields rest
 def supS : Stmt → Bool
   | .let_ _ e => supE e
   | .check c els => supE c && supE els
@@ -59,6 +64,17 @@ def ArgsSim (n : Nat) : Prop :=
     Outcome S.m (evalArgs S.m.p n env log es) base fr K
       (fun vs l => stAt (vs.reverse ++ junk) base env fr K (wp + (compileArgs S.m.p.structs wp c es).code.length) l)
       (stAt junk base env fr K wp log)
+
+/-- struct literal fields: the accumulator struct sits below the field value being computed -/
+def FieldsSim (n : Nat) : Prop :=
+  ∀ (fields : List (Nat × Expr)) (d : List (Nat × Ty)) (name : Nat) (fs : List (Nat × Val)) (env : Env) (log : Log)
+    (wp c : Nat) (junk base : List Val) (fr : List Env) (K : List Nat),
+    supFields fields = true → S.m.p.structDef name = some d →
+    CodeAt S.labels S.m.prog wp (compileFields S.m.p.structs wp c fields).code →
+    DefsOk S.labels (compileFields S.m.p.structs wp c fields).defs →
+    Outcome S.m (evalFields S.m.p n env log d fields (.struct name fs)) base fr K
+      (fun acc l => stAt (acc :: junk) base env fr K (wp + (compileFields S.m.p.structs wp c fields).code.length) l)
+      (stAt (.struct name fs :: junk) base env fr K wp log)
 
 def StmtsSim (n : Nat) : Prop :=
   ∀ (ss : List Stmt) (env : Env) (log : Log) (wp c : Nat) (junk base : List Val) (fr : List Env) (K : List Nat),
@@ -140,9 +156,10 @@ structure AllSim (n : Nat) : Prop where
   sc : ScopedSim S n
   br : BranchesSim S n
   body : BodySim S n
+  fl : FieldsSim S n
 
 theorem sim_zero : AllSim S 0 := by
-  refine ⟨?_, ?_, ?_, ?_, ?_, ?_, ?_⟩
+  refine ⟨?_, ?_, ?_, ?_, ?_, ?_, ?_, ?_⟩
   · intro e env log wp c junk base fr K _ _ _; simp [evalExpr, Outcome]
   · intro es env log wp c junk base fr K _ _ _; simp [evalArgs, Outcome]
   · intro ss env log wp c junk base fr K _ _ _; simp [evalStmts, Outcome]
@@ -150,6 +167,7 @@ theorem sim_zero : AllSim S 0 := by
   · intro ss env log wp c junk base fr K _ _ _; simp [evalScoped, Outcome]
   · intro brs hasElse els env log wp c endL endAddr junk base fr K _ _ _ _ _ _ _; simp [evalBranches, Outcome]
   · intro f vs log σ frs Kc entry _; simp [evalCall, BodyOutcome]
+  · intro fields d name fs env log wp c junk base fr K _ _ _ _; simp [evalFields, Outcome]
 
 macro "normpc" : tactic => `(tactic| simp only [List.length_append, List.length_cons, List.length_singleton, List.length_nil, ← Nat.add_assoc, Nat.add_zero, Nat.zero_add, Nat.reduceAdd])
 macro "normpc" "at" h:ident : tactic => `(tactic| simp only [List.length_append, List.length_cons, List.length_singleton, List.length_nil, ← Nat.add_assoc, Nat.add_zero, Nat.zero_add, Nat.reduceAdd] at $h:ident)
